@@ -899,16 +899,18 @@ class ArgumentParser(ParserDeprecations, ActionsContainer, ArgumentLinking, argp
                     if multifile:
                         raise NotImplementedError(f"multifile=True not supported for fsspec paths: {path}")
                     fsspec = import_fsspec("ArgumentParser.save")
+                    content = self.dump(cfg, **dump_kwargs)  # type: ignore[arg-type]
                     with fsspec.open(path, "w") as f:
-                        f.write(self.dump(cfg, **dump_kwargs))  # type: ignore[arg-type]
+                        f.write(content)
                     return
 
         path_fc = Path(path, mode="fc")
         check_overwrite(path_fc)
 
         if not multifile:
+            content = self.dump(cfg, **dump_kwargs)  # type: ignore[arg-type]
             with open(path_fc.absolute, "w") as f:
-                f.write(self.dump(cfg, **dump_kwargs))  # type: ignore[arg-type]
+                f.write(content)
 
         else:
             cfg = cfg.clone()
@@ -917,6 +919,8 @@ class ArgumentParser(ParserDeprecations, ActionsContainer, ArgumentLinking, argp
             if not skip_validation:
                 with parser_context(load_value_mode=self.parser_mode):
                     self.validate(strip_meta(cfg), branch=branch)
+
+            outputs: List[Tuple[Path, str]] = []
 
             def save_paths(cfg):
                 for key in cfg.get_sorted_keys():
@@ -934,21 +938,21 @@ class ArgumentParser(ParserDeprecations, ActionsContainer, ArgumentLinking, argp
                             else:
                                 is_json = str(val_path).lower().endswith(".json")
                                 val_str = dump_using_format(self, val_out, "json_indented" if is_json else format)
-                            with open(val_path.absolute, "w") as f:
-                                f.write(val_str)
+                            outputs.append((val_path, val_str))
                             cfg[key] = os.path.basename(val_path.absolute)
                     elif isinstance(val, Path) and key in self.save_path_content and "r" in val.mode:
                         val_path = Path(os.path.basename(val.absolute), mode="fc")
                         check_overwrite(val_path)
-                        with open(val_path.absolute, "w") as f:
-                            f.write(val.get_content())
-                        cfg[key] = type(val)(str(val_path))
+                        outputs.append((val_path, val.get_content()))
+                        cfg[key] = str(val_path)
 
             with change_to_path_dir(path_fc), parser_context(parent_parser=self):
                 save_paths(cfg)
             dump_kwargs["skip_validation"] = True
-            with open(path_fc.absolute, "w") as f:
-                f.write(self.dump(cfg, **dump_kwargs))  # type: ignore[arg-type]
+            outputs.append((path_fc, self.dump(cfg, **dump_kwargs)))  # type: ignore[arg-type]
+            for out_path, content in outputs:
+                with open(out_path.absolute, "w") as f:
+                    f.write(content)
 
     ## Methods related to defaults ##
 
